@@ -49,3 +49,25 @@ func WatchOn()            { panic("vf: engine intrinsic") }
 func WatchOff()           { panic("vf: engine intrinsic") }
 func Holds(mu any) int    { panic("vf: engine intrinsic") }
 func Dump(x any)          { panic("vf: engine intrinsic") }
+
+// RandReader replaces crypto/rand.Reader inside the engine. By default it
+// yields a deterministic counter sequence; with RandSymbolic set it yields
+// fresh symbolic bytes.
+type RandReader struct{}
+
+var (
+	RandSymbolic bool
+	randCtr      byte
+)
+
+func (*RandReader) Read(p []byte) (int, error) {
+	for i := range p {
+		if RandSymbolic {
+			p[i] = Byte("rand")
+		} else {
+			randCtr++
+			p[i] = randCtr
+		}
+	}
+	return len(p), nil
+}
